@@ -293,8 +293,9 @@ def body(chk, db, cfgname):
                     r5.ok(ssite, g.loc(j), "construction is dominated by %s != %s (failing edge throws)" % (a, b), cfgname)
                 else:
                     r5.bad(ssite, g.loc(j), "the term is constructed although %s == %s was not excluded (documented as undefined)" % (a, b), cfgname)
-    need = {"Pomerol::LatticePresets::addCoulombP": [("OrbitalSize", "<", 1), ("SpinSize", "<", 1)],
-            "Pomerol::LatticePresets::addMagnetization": [("SpinSize", "==", 2)],
+    # addCoulombP's "more than one orbital and spin" rejection is not required by the documentation and the sums stay
+    # well defined without it, so it is not armed (dropping it preserves the property).
+    need = {"Pomerol::LatticePresets::addMagnetization": [("SpinSize", "==", 2)],
             "Pomerol::LatticePresets::addSzSz": [("SpinSize", "==", 2)],
             "Pomerol::LatticePresets::addSS": [("SpinSize", "==", 2)]}
     for g in sorted(scope, key=lambda x: (x.file, x.line)):
